@@ -22,7 +22,7 @@ ASSUMPTIONS = ['primitive ufunc VALUES come from numpy C code and are outside th
 BOUNDS = {'quick': 'one symbolic real argument per function (any real / any real in the stated domain); arrays 2x2, 3x3, vectors of length 3; '
                    'concrete grid of 14 real and 12 complex points per function', 'thorough': 'same plus min/max with 5 arguments and 4x4 trace/transposes'}
 OUTSIDE = ['numeric values and complex continuation of numpy ufuncs (grid-sampled only)', 'det (LAPACK)', 'factorial (scipy absent)', 'FP-error to exception mapping inside numpy']
-DEADLINE = {'quick': 150, 'thorough': 900}
+DEADLINE = {'quick': 600, 'thorough': 900}
 FUNCS = ['mathfuncs.sec/csc/cot/sech/csch/coth/arcsec/arccsc/arccot/arcsech/arccsch/arccoth', 'mathfuncs.arctan2', 'mathfuncs.kronecker', 'mathfuncs.real/imag',
          'mathfuncs.cross', 'mathfuncs.array_abs', 'SpecifyDomain decorators (validate_args)', 'MathExpression.eval_function/validate_function_call',
          'expressions.evaluator', 'DEFAULT_FUNCTIONS / ARRAY_ONLY_FUNCTIONS / DEFAULT_VARIABLES tables']
